@@ -21,8 +21,12 @@ RULE = (
     "Python ints, plus near neighbours (same nf, 2-20 x the reader's documented tolerance atol 1e-3 + rtol 1e-5*|s| apart) "
     "and equal scales with different nf; nf 3-6; operator AND error tensors of shape (14,k,14,k), k 2-6, random normal / "
     "sparse (compressible) / special values (nan, inf, -0.0, subnormals) / identity-like, C-ordered, Fortran-ordered or "
-    "non-contiguous views; written with EKO.create(path).load_cards(..).build(), eko[ep] = Operator(op, err), close. A "
-    "minority of cases is a full tiny LO solve (eko.solve, 2-4 grid points, 1-3 targets, integer and float mu). In about "
+    "non-contiguous views, and (half of the store cases) tensors exactly representable in single precision: exact identity "
+    "with zero error, small integers, dyadic rationals, zero error under a random operator, float32-rounded operator; "
+    "written with EKO.create(path).load_cards(..).build(), eko[ep] = Operator(op, err), close. In 3/7 of the store cases "
+    "points have a write history (stored without error then re-stored with error, n-n-e, e-n-e, e-e; always ending with "
+    "error) whose later steps may happen after close + EKO.edit, and points may first appear in the second session. A "
+    "minority of cases is a full tiny LO solve (eko.solve, 2-4 grid points, 1-3 targets, integer and float mu, sometimes the initial point itself = exact identity). In about "
     "45% of the store cases the evolution points are handed to the store as numpy scalars (as a grid built from numpy "
     "arrays would): scale numpy.float64, or numpy.int64 when integer-valued, and / or nf numpy.int64 / numpy.int32, for "
     "all points or a random subset (compared like any other point; discarded and counted only if the Python reader "
@@ -30,7 +34,8 @@ RULE = (
     "EKO.read, has_operator is true and load_operator returns operator and error tensors with the same shape and "
     "identical bytes (logical row-major order) for every point; a lookup displaced by 0.4 x the documented tolerance "
     "finds the same operator. Non-trivial = at least 2 points and at least one integer-valued scale; distinct by (mode, "
-    "k, number of points, scale kinds, near pair, same-scale pair, tensor kind, layout)."
+    "k, number of points, scale kinds, near pair, same-scale pair, tensor kind, layout, numpy key types, history shapes, "
+    "second session)."
 )
 ASSUMPTIONS = [
     "the reader's own sources (crates/dekoder/src) are compiled from the tree under test, against the real `tar` 0.4.45 "
@@ -124,12 +129,28 @@ def strategy(tier):
                 nptypes.append(["py", draw(st.sampled_from(["i8", "i4"]))])
             else:
                 nptypes.append([draw(st.sampled_from(["py", "f8", "i8"])), draw(st.sampled_from(["py", "i8", "i4"]))])
+        # write history of each point: steps "e" (operator with error) / "n" (operator without error), the last one always
+        # with error (the property's domain); `split` steps happen in the creating session, the rest after close + EKO.edit
+        rewrite = draw(st.sampled_from([False, False, False, False, True, True, True]))
+        once = [["e"]]
+        upgrades = [["n", "e"], ["n", "n", "e"], ["e", "n", "e"]]
+        history = []
+        for i in range(len(pts)):
+            if not rewrite:
+                steps = ["e"]
+            elif i == 0:
+                steps = draw(st.sampled_from(upgrades))
+            else:
+                steps = draw(st.sampled_from(once * 3 + upgrades + [["e", "e"]]))
+            split = draw(st.integers(0, len(steps))) if rewrite and draw(st.booleans()) else len(steps)
+            history.append([list(steps), split])
         return dict(
             mode="store",
             k=draw(st.integers(2, 6)),
             points=pts,
             seed=draw(st.integers(0, 2**32 - 1)),
-            tensor=draw(st.sampled_from(["normal", "normal", "sparse", "special", "identity"])),
+            tensor=draw(st.sampled_from(TENSOR_KINDS)),
+            history=history,
             layout=draw(st.sampled_from(["C", "C", "C", "F", "view"])),
             nptypes=nptypes,
         )
@@ -137,7 +158,8 @@ def strategy(tier):
     @st.composite
     def solve(draw):
         k = draw(st.integers(2, 4))
-        cands = [[3, 4], [3.0, 4], [3.5, 4], [4, 4], [10, 5], [10.0, 5], [20.5, 5], [100, 5], [7.25, 5]]
+        # [2.0, 4] / [2, 4] is the initial point itself: the solve stores the exact identity with vanishing error
+        cands = [[3, 4], [3.0, 4], [3.5, 4], [4, 4], [10, 5], [10.0, 5], [20.5, 5], [100, 5], [7.25, 5], [2.0, 4], [2, 4], [2.0, 4]]
         n = draw(st.sampled_from([1, 2, 2, 3]))
         idx = draw(st.lists(st.integers(0, len(cands) - 1), min_size=n, max_size=n, unique=True))
         mugrid = []
@@ -153,11 +175,17 @@ def strategy(tier):
 # ----------------------------------------------------------------------------------------------------------- writers
 
 
-def tensors(case, index):
-    """Operator and error tensors of point ``index`` (deterministic in the case)."""
+# tensor kinds; the second group has operator and / or error exactly representable in single precision
+TENSOR_KINDS = ["normal", "normal", "sparse", "special", "identity",
+                "identity-exact", "integers", "dyadic", "zero-error", "f32-operator"]
+F32_EXACT = {"identity-exact": "op+err", "integers": "op+err", "dyadic": "op+err", "zero-error": "err", "f32-operator": "op"}
+
+
+def tensors(case, index, version=0):
+    """Operator and error tensors of write ``version`` of point ``index`` (deterministic in the case)."""
     k = case["k"]
     shape = (14, k, 14, k)
-    rng = np.random.default_rng([case["seed"], index])
+    rng = np.random.default_rng([case["seed"], index, version])
     kind = case["tensor"]
 
     def one():
@@ -179,7 +207,24 @@ def tensors(case, index):
             a += np.where(rng.random(shape) < 0.02, rng.standard_normal(shape) * 1e-7, 0.0)
         return a
 
-    op, err = one(), np.abs(one()) if kind != "special" else one()
+    if kind == "identity-exact":
+        op = np.zeros(shape)
+        for p in range(14):
+            for j in range(k):
+                op[p, j, p, j] = 1.0
+        err = np.zeros(shape)
+    elif kind == "integers":
+        op = rng.integers(-3, 4, shape).astype(float)
+        err = rng.integers(0, 3, shape).astype(float)
+    elif kind == "dyadic":
+        op = rng.integers(-(2**10), 2**10, shape) / 2.0**7
+        err = rng.integers(0, 2**8, shape) / 2.0**12
+    elif kind == "zero-error":
+        op, err = one(), np.zeros(shape)
+    elif kind == "f32-operator":
+        op, err = one().astype(np.float32).astype(np.float64), np.abs(one())
+    else:
+        op, err = one(), np.abs(one()) if kind != "special" else one()
     layout = case["layout"]
     if layout == "F":
         op, err = np.asfortranarray(op), np.asfortranarray(err)
@@ -198,17 +243,34 @@ def write_store(case, path):
 
     xgrid = np.geomspace(1e-3, 1.0, case["k"]).tolist()
     th, opc = ru.cards(dict(xgrid=xgrid, mugrid=[[10.0, 4]]))
+    keys = []
+    for i, (s, nf) in enumerate(case["points"]):
+        st_, nt_ = case["nptypes"][i]
+        if st_ == "i8" and float(s).is_integer():
+            s = np.int64(int(s))
+        elif st_ in ("f8", "i8"):
+            s = np.float64(s)
+        if nt_ != "py":
+            nf = {"i8": np.int64, "i4": np.int32}[nt_](nf)
+        keys.append((s, nf))  # keys exactly as typed above
+    history = case.get("history") or [[["e"], 1] for _ in keys]
+    sessions = [[], []]
+    nsteps = max(len(steps) for steps, _ in history)
+    for j in range(nsteps):
+        for i, (steps, split) in enumerate(history):
+            if j < len(steps):
+                sessions[0 if j < split else 1].append((i, j, steps[j] == "e"))
+
+    def run(eko, writes):
+        for i, j, with_err in writes:
+            op, err = tensors(case, i, j)
+            eko[keys[i]] = Operator(operator=op, error=err if with_err else None)
+
     with EKO.create(path).load_cards(th, opc).build() as eko:
-        for i, (s, nf) in enumerate(case["points"]):
-            st_, nt_ = case["nptypes"][i]
-            if st_ == "i8" and float(s).is_integer():
-                s = np.int64(int(s))
-            elif st_ in ("f8", "i8"):
-                s = np.float64(s)
-            if nt_ != "py":
-                nf = {"i8": np.int64, "i4": np.int32}[nt_](nf)
-            op, err = tensors(case, i)
-            eko[(s, nf)] = Operator(operator=op, error=err)  # keys exactly as typed above
+        run(eko, sessions[0])
+    if sessions[1]:
+        with EKO.edit(path) as eko:
+            run(eko, sessions[1])
 
 
 def write_solve(case, path):
@@ -268,11 +330,15 @@ def check_case(case):
         same = any(float(a[0]) == float(b[0]) and a[1] != b[1] for i, a in enumerate(pts) for b in pts[i + 1:])
         np_scale = sorted({("i8" if t[0] == "i8" and float(p[0]).is_integer() else "f8") for p, t in zip(pts, case["nptypes"]) if t[0] != "py"})
         np_nf = sorted({t[1] for t in case["nptypes"] if t[1] != "py"})
-        res.key = ["store", case["k"], len(pts), kinds, near, same, case["tensor"], case["layout"], np_scale, np_nf]
+        history = case.get("history") or [[["e"], 1] for _ in pts]
+        shapes = sorted({"".join(steps) for steps, _ in history})
+        edited = any(split < len(steps) for steps, split in history)
+        res.key = ["store", case["k"], len(pts), kinds, near, same, case["tensor"], case["layout"], np_scale, np_nf, shapes, edited]
         res.classes = [
             "mode=store", f"k={case['k']}", f"points={len(pts)}", f"tensor={case['tensor']}", f"layout={case['layout']}",
             f"near-pair={near}", f"same-scale-other-nf={same}", f"numpy-keys={bool(np_scale or np_nf)}",
-        ] + [f"numpy-scale={x}" for x in np_scale] + [f"numpy-nf={x}" for x in np_nf] + [f"scale-kind={x}" for x in kinds]
+        ] + [f"numpy-scale={x}" for x in np_scale] + [f"numpy-nf={x}" for x in np_nf] + [f"scale-kind={x}" for x in kinds] + [
+            f"history={x}" for x in shapes] + [f"second-session(EKO.edit)={edited}", f"float32-exact={F32_EXACT.get(case['tensor'], 'none')}"]
         res.nontrivial = len(pts) >= 2 and any(x != "float" for x in kinds)
     else:
         mus = case["mugrid"]
